@@ -7,6 +7,18 @@ ROOT = os.path.dirname(os.path.dirname(os.path.abspath(__file__)))
 
 # property id -> dict(text, note, technique, design_ref) for claimed checks
 CLAIMED = {
+    'C11': dict(
+        text='Machine-checked: for every entity whose multipart boundaries contain no newline (the RFC 2046 grammar; hypothesis BoundaryOk, '
+             'decidable, shown necessary by the proved counterexample C11_parts_unrestricted_false), the Lean transcription of parseboundary/'
+             'findboundary/parseattachments/message_get_attachments yields exactly the parts of the MIME tree in pre-order as read line by line '
+             '(C11_parts), errors (bad boundary parameter, missing terminator, nesting > 4 from the regenerated limit) are errors and never a '
+             'shorter list, and message_get_body is the body decoded by the part\'s own transfer encoding with text/plain preferred over '
+             'text/html for multipart/alternative (C11_body). Tied to the working tree by differential execution of the real '
+             'message_get_attachments/message_get_body (ASan harness) against model and specification on generated MIME trees.',
+        note='Trusted: Lean kernel, Spec/Mime.lean, the correspondence generators; entity/header reading is shared between model and spec (its '
+             'correctness is C08/C10); how attachment conditions/blocks quantify over parts (expr.c) is not yet in the model - a change there '
+             '(seeded change C11-m2) is not detected by this check yet.',
+        technique='Lean 4 proof of model = line-based MIME specification + differential execution model/implementation'),
     'C16': dict(
         text='Machine-checked: the Lean transcription of b64_pton/base64_decode, quoted_printable_decode(_buffer) and rfc2047_decode '
              'equals independent reference decoders (RFC 4648 / QP / RFC 2047) for EVERY byte string (theorems C16_b64, C16_b64_len, '
@@ -31,7 +43,6 @@ NOT_YET = {
     'C08': 'check under construction',
     'C09': 'check under construction',
     'C10': 'check under construction',
-    'C11': 'check under construction',
     'C12': 'check under construction',
     'C13': 'check under construction',
     'C14': 'check under construction',
